@@ -93,6 +93,7 @@ package sessiontracker
 
 //@ func (*sessionTracker).RemoteLogin
 //@   atomic mu owns user
+//@   blocks never
 //@   modifies out, "F!sessiontracker.user!*", "F!sessiontracker.SessionTrackerError!*", "M!map<string>^sessiontracker.user!*", "M!map<int>common.RemoteUserLogin!*", "S!^aucoalesce.Event", g_evsrc, g_evby, g_opened, g_disp
 //@   allocates "F!auditevent.AuditEvent!*", "M!*"
 //@   requires TrackerInv(o)
@@ -120,6 +121,7 @@ package sessiontracker
 
 //@ func (*sessionTracker).AuditdEvent
 //@   atomic mu owns user
+//@   blocks never
 //@   modifies out, "F!sessiontracker.user!*", "F!sessiontracker.SessionTrackerError!*", "M!map<string>^sessiontracker.user!*", "M!map<int>common.RemoteUserLogin!*", "S!^aucoalesce.Event", g_evsrc, g_evby, g_opened, g_disp
 //@   allocates "F!auditevent.AuditEvent!*", "M!*"
 //@   requires TrackerInv(o) && event != nil && alloc(event)
@@ -158,6 +160,7 @@ package sessiontracker
 
 //@ func (*sessionTracker).DeleteUsersWithoutLoginsBefore
 //@   atomic mu owns user
+//@   blocks never
 //@   modifies out, "F!sessiontracker.user!*", "F!sessiontracker.SessionTrackerError!*", "M!map<string>^sessiontracker.user!*", "M!map<int>common.RemoteUserLogin!*", "S!^aucoalesce.Event", g_evsrc, g_evby, g_opened, g_disp
 //@   allocates "F!auditevent.AuditEvent!*", "M!*"
 //@   requires TrackerInv(o)
@@ -171,6 +174,7 @@ package sessiontracker
 
 //@ func (*sessionTracker).DeleteRemoteUserLoginsBefore
 //@   atomic mu owns user
+//@   blocks never
 //@   modifies out, "F!sessiontracker.user!*", "F!sessiontracker.SessionTrackerError!*", "M!map<string>^sessiontracker.user!*", "M!map<int>common.RemoteUserLogin!*", "S!^aucoalesce.Event", g_evsrc, g_evby, g_opened, g_disp
 //@   allocates "F!auditevent.AuditEvent!*", "M!*"
 //@   requires TrackerInv(o)
